@@ -411,10 +411,6 @@ def run_deletes(w, state0, plan):
     return steps, commit_err
 
 
-def model_run(ctx, w, state0, dels):
-    return ctx.driver('C15', [{'op': 'run', 'schema': w.model_schema, 'objs': state0, 'deletes': dels}])[0]
-
-
 def flat_plan(w, state, plan):
     """the sequence of `_delete_` targets a plan amounts to (query deletes fetch in primary-key order = creation order)"""
     out = []
@@ -528,9 +524,21 @@ def _check_history(ctx, w, schema, prog, plan, state0, report):
     elif got != expect and not viol:
         viol = ('database-differs-from-prescribed-state', {'database': got, 'prescribed': expect})
     # ---------------- correspondence with the Lean model
-    if report and ctx.driver.ok:
+    if report:
         tie(ctx, w, inp, state0, plan, groups, steps, commit_err, got)
     return viol
+
+
+JOBS = []      # (driver request, function evaluating the reply): sent to the Lean driver in ONE batch (flush_jobs)
+
+
+def flush_jobs(ctx):
+    jobs = JOBS[:]; del JOBS[:]
+    if not jobs or not ctx.driver.ok: return
+    outs = ctx.driver('C15', [j[0] for j in jobs])
+    for (req, fn), out in zip(jobs, outs):
+        if 'unknown property' in str(out.get('driver_error')): raise RuntimeError('the shared driver executable was replaced while running: %r' % out)
+        fn(out)
 
 
 def tie(ctx, w, inp, state0, plan, groups, steps, commit_err, got):
@@ -538,9 +546,13 @@ def tie(ctx, w, inp, state0, plan, groups, steps, commit_err, got):
     for grp, rec in zip(groups, steps):
         if rec['missing']: marks.append(None); continue
         marks.append((len(dels), len(grp))); dels += grp
-    out = model_run(ctx, w, state0, dels)
+    relkinds = None
+    JOBS.append(({'op': 'run', 'schema': w.model_schema, 'objs': state0, 'deletes': dels},
+                 lambda out: tie_eval(ctx, inp, plan, groups, steps, marks, commit_err, got, out)))
+
+
+def tie_eval(ctx, inp, plan, groups, steps, marks, commit_err, got, out):
     if 'steps' not in out:
-        if 'unknown property' in str(out.get('driver_error')): raise RuntimeError('the shared driver executable was replaced while running: %r' % out)
         ctx.divergence('driver error', inp, model=out); return
     ms = out['steps']
     real_failed = False
@@ -688,12 +700,15 @@ def linked_tie(ctx):
 
 def ondelete_tie(ctx, w):
     real, link = w.on_delete_actions()
-    out = ctx.driver('C15', [{'op': 'ondelete', 'schema': w.model_schema}])[0]
-    for r in real: ctx.count('on_delete:%s:%s' % (w.relkind((r[0], bool(r[1]))), r[2]))
-    if sorted(out.get('res', [])) != sorted(real):
-        ctx.divergence('ON DELETE actions of the generated FK columns differ from onDeleteOf', {'schema': w.schema}, model=out.get('res'), impl=real)
-    if link and link != [str(out.get('link'))]:
-        ctx.divergence('ON DELETE action of a link-table column differs from linkOnDelete', {'schema': w.schema}, model=out.get('link'), impl=link)
+    kinds = [w.relkind((r[0], bool(r[1]))) for r in real]
+    schema = w.schema
+    for r, k in zip(real, kinds): ctx.count('on_delete:%s:%s' % (k, r[2]))
+    def ev(out):
+        if sorted(out.get('res', [])) != sorted(real):
+            ctx.divergence('ON DELETE actions of the generated FK columns differ from onDeleteOf', {'schema': schema}, model=out.get('res'), impl=real)
+        if link and link != [str(out.get('link'))]:
+            ctx.divergence('ON DELETE action of a link-table column differs from linkOnDelete', {'schema': schema}, model=out.get('link'), impl=link)
+    JOBS.append(({'op': 'ondelete', 'schema': w.model_schema}, ev))
 
 
 def bulk_case(ctx, rng, schema, prog):
@@ -728,20 +743,19 @@ def bulk_case(ctx, rng, schema, prog):
             if err and a3 != b3:
                 ctx.violation('a refused bulk delete changed the database', inp, observed={'before': b3, 'after': a3}, key='bulk-refused-changed-database:' + err)
             recs.append((err, [i for i in ids if w.ents[i] == e], after))
-        if not ctx.driver.ok: return
-        out = ctx.driver('C15', [{'op': 'bulk', 'schema': w.model_schema, 'objs': state0, 'stmts': [r[1] for r in recs]}])[0]
-        if 'steps' not in out:
-            ctx.divergence('driver error', inp, model=out); return
-        for (err, ids, after), m in zip(recs, out['steps']):
-            if bool(err) != m['refused']:
-                ctx.divergence('bulk delete: refused by one side only', inp, model=m['refused'], impl=err); return
-            if err and err not in ('TransactionIntegrityError', 'IntegrityError'): ctx.count('bulk:unexpected-error-class:' + err)
-            mdb = m['db']
-            mgot = (mdb['rows'], sorted(mdb['cols'], key=lambda c: (c[0], c[1], c[2])), sorted(mdb['links']))
-            if mgot != (after['rows'], after['cols'], after['links']):
-                ctx.divergence('rows after a bulk delete differ from dbDelete', inp, model=mgot, impl=(after['rows'], after['cols'], after['links'])); return
-            ctx.count('tie:bulk-agrees:%s' % ('refused' if err else 'ok'))
-            # comparison with the in-memory rule (observation, not part of the property): same rows deleted object by object
+        def ev(out):
+            if 'steps' not in out:
+                ctx.divergence('driver error', inp, model=out); return
+            for (err, ids, after), m in zip(recs, out['steps']):
+                if bool(err) != m['refused']:
+                    ctx.divergence('bulk delete: refused by one side only', inp, model=m['refused'], impl=err); return
+                if err and err not in ('TransactionIntegrityError', 'IntegrityError'): ctx.count('bulk:unexpected-error-class:' + err)
+                mdb = m['db']
+                mgot = (mdb['rows'], sorted(mdb['cols'], key=lambda c: (c[0], c[1], c[2])), sorted(mdb['links']))
+                if mgot != (after['rows'], after['cols'], after['links']):
+                    ctx.divergence('rows after a bulk delete differ from dbDelete', inp, model=mgot, impl=(after['rows'], after['cols'], after['links'])); return
+                ctx.count('tie:bulk-agrees:%s' % ('refused' if err else 'ok'))
+        JOBS.append(({'op': 'bulk', 'schema': w.model_schema, 'objs': state0, 'stmts': [r[1] for r in recs]}, ev))
     finally:
         w.db.disconnect()
 
@@ -836,7 +850,7 @@ def run(ctx):
             ctx.count('schema-rejected:' + type(e).__name__); continue
         for rel in schema['rels']: ctx.count('rel:' + rel['kind'])
         prog = gen_prog(rng, w)
-        if ctx.driver.ok: ondelete_tie(ctx, w)
+        ondelete_tie(ctx, w)
         ok = w.populate(prog)
         state0 = w.read_state() if ok else None
         plan = gen_plan(rng, w, state0) if ok else None
@@ -854,6 +868,7 @@ def run(ctx):
             bulk_vs_object(ctx, rng, schema, prog)
         else:
             all_orders(ctx, rng, schema, prog)
+    flush_jobs(ctx)
 
 
 def replay(ctx, data):
@@ -862,5 +877,6 @@ def replay(ctx, data):
         ctx.case({'replay': True}, kind='replay')
         v = check_history(ctx, inp['schema'], inp['prog'], inp['plan'])
         if v is not None: report(ctx, inp['schema'], inp['prog'], inp['plan'], v)
+        flush_jobs(ctx)
     else:
         run(ctx)
